@@ -150,7 +150,7 @@ PLANS["C05"] = {
                                # against the simplex solver of the embedding logic
                                spread(seed, "C05d", N(tier, 20, 400), ["QF_IDL", "QF_RDL"], "configs", mode="cnf", nnum=5, maxconst=2, n_atoms=10,
                                       cfgs=["embed", "seed", "cores", "proofs"]) +
-                               spread(seed, "C05g", N(tier, 50, 1000), ["QF_IDL", "QF_RDL"], "configs", mode="dlgraph", nnum=5,
+                               spread(seed, "C05g", N(tier, 80, 1600), ["QF_IDL", "QF_RDL"], "configs", mode="dlgraph", nnum=5,
                                       cfgs=["embed", "seed", "cores", "proofs"]),
     "rule": "one script under up to 15 configurations (engines, seeds, tracking, preprocessing, restarts, logic embedding); "
             "memo keyed by the Active set across runs; contradicting definitive answers are violations",
@@ -389,7 +389,7 @@ PLANS["C25"] = {
     "pre": lambda: driver_build(("rel", "tsan")),
     "flavours": ["rel", "tsan"],
     "jobs": lambda seed, tier: spread(seed, "C25", N(tier, 36, 400), ["QF_BOOL", "QF_UF", "QF_LRA", "QF_LIA", "QF_IDL", "QF_UFLRA"], "stop", max_k=N(tier, 25, 60)) +
-                               spread(seed, "C25i", N(tier, 16, 200), ["QF_LIA", "QF_UFLIA", "QF_LIA", "QF_ALIA"], "stop", max_k=N(tier, 40, 80), mode="integrality", ratio=1.0) +
+                               spread(seed, "C25i", N(tier, 16, 200), ["QF_LIA", "QF_UFLIA", "QF_LIA", "QF_ALIA"], "stop", max_k=N(tier, 60, 120), mode="integrality", ratio=0.7, nnum=4) +
                                spread(seed, "C25t", N(tier, 10, 150), ["QF_BOOL", "QF_LRA", "QF_UF", "QF_LIA"], "stop", max_k=2, threads=N(tier, 6, 15), flavour="tsan"),
     "mc": [{"module": "MC_Stop"}],
     "remap": lambda v: "C25" if (v.get("kind") == "stop" and v.get("p") in ("C01", "C02", "C04", "C05", "C18")) else v.get("p"),
